@@ -21,6 +21,7 @@ def check(ctx):
     whomay.heap_imports(ctx, 'C07')
     guards.absorbed_put_refused(ctx, 'C07')
     guards.stored_level_tested(ctx, 'C07')
+    guards.infinite_source_put(ctx, 'C07')
     guards.nan_refused(ctx, 'C07', [('ContainerPut', '__init__', 'amount'), ('ContainerGet', '__init__', 'amount'),
                                     ('Container', '__init__', 'capacity'), ('Container', '__init__', 'init')],
                        'a NaN level or amount makes every later guard False: the level leaves [0, capacity] and requests are stranded')
